@@ -26,7 +26,7 @@ RULE = (
 ASSUMPTIONS = ["docs/schema.json in the working tree is 'the published schema'", "jsonschema Draft-7 semantics"]
 MANIFEST = {
     "category": "exploration",
-    "text": "Bounded exhaustive enumeration of the on-disk model corpus x {static, inspection} x {aliases unresolved, resolved} x 4 docstring parsers; every full dump (API, and `griffe dump -f` into one file or one file per package) is validated against docs/schema.json with jsonschema; coverage counters show which kinds / optional keys / expression classes / section kinds were produced. Layouts include namespace portions out of alphabetical order and wildcard imports that do not run (type-guarded, stub-only).",
+    "text": "Bounded exhaustive enumeration of the on-disk model corpus x {static, inspection} x {aliases unresolved, resolved} x 4 docstring parsers; every full dump (API, and `griffe dump -f` into one file or one file per package) is validated against docs/schema.json with jsonschema; coverage counters show which kinds / optional keys / expression classes / section kinds were produced. Layouts include namespace portions out of alphabetical order and wildcard imports that do not run (type-guarded, stub-only). Layouts include a name imported through a re-export chain; features include dataclass options unpacked from dictionaries and more un-annotated docstring items than the signature's tuple has elements.",
     "note": "Complete for the corpus; silence on a schema branch that the corpus never produces means nothing (see counters).",
     "technique": "model checking by exhaustive small-scope enumeration of object trees validated against the published JSON schema",
 }
